@@ -20,13 +20,17 @@ class Restartable:
         self.o = Origin(mode)
         self.port = self.o.port
     def stop(self, rst=False):
-        if rst:
-            with self.o.lock:
-                for r in self.o.conns:
-                    try:
+        # a handler thread blocked in recv() keeps the kernel socket alive after close() from here: nothing would go
+        # out until it wakes (and by then the descriptor number may belong to a socket another thread has opened).
+        # shutdown(SHUT_RD) wakes it without putting anything on the wire; the close that follows is the reset / the end
+        with self.o.lock:
+            for r in self.o.conns:
+                try:
+                    if rst:
                         r['sock'].setsockopt(socket.SOL_SOCKET, socket.SO_LINGER, struct.pack('ii', 1, 0))
-                    except OSError:
-                        pass
+                    r['sock'].shutdown(socket.SHUT_RD)
+                except OSError:
+                    pass
         self.o.stop()
     def start(self):
         for _ in range(100):
@@ -207,10 +211,35 @@ def long_quic_outage():
         qh.stop()
         t0 = time.time()
         down_ok = 0
+        # requests do not arrive one by one: every 12 s six of them are written at the same moment on connections
+        # opened beforehand (they queue behind the one connection attempt the connector makes at a time)
+        def burst():
+            conns = []
+            for _ in range(6):
+                try:
+                    conns.append(socket.create_connection(('127.0.0.1', lhp), timeout=3))
+                except OSError:
+                    pass
+            req = f'CONNECT 127.0.0.1:{e2.port} HTTP/1.1\r\nHost: x\r\n\r\n'.encode()
+            for c_ in conns:
+                try:
+                    c_.sendall(req)
+                except OSError:
+                    pass
+            time.sleep(0.1)
+            return conns
+        pending, next_burst, bursts = [], 1.0, 0
         while time.time() - t0 < OUTAGE_S:
+            if time.time() - t0 >= next_burst and not os.environ.get("NOBURST"):
+                pending += burst(); bursts += 1
+                next_burst += 12.0
             if lprobe(2.0):
                 down_ok += 1
             time.sleep(1.0)
+        for c_ in pending:
+            try: c_.close()
+            except OSError: pass
+        long_result['bursts_during_outage'] = bursts
         qh.start()
         t1 = time.time()
         rec = None
@@ -746,7 +775,9 @@ if long_thread.is_alive() or 'machinery' in long_result:
     machinery(f'long QUIC outage scenario: {long_result.get("machinery", "did not finish")}')
 distinct.add(('long-quic-outage', long_result.get('recovered') is not None))
 if long_result.get('recovered') is None:
-    chk.violation('recovery.resume', f'no-service-after-upstream-returned:quic/away-{OUTAGE_S}s-with-requests-arriving', f'quic upstream away for {OUTAGE_S} s while one request per second kept arriving: {K} attempts ({long_result.get("gave_up_after_s")} s) after it was back, still no tunnel', {'connector': 'quic', 'outage_s': OUTAGE_S})
+    chk.violation('recovery.resume', f'no-service-after-upstream-returned:quic/away-{OUTAGE_S}s-with-requests-arriving', f'quic upstream away for {OUTAGE_S} s while one request per second (and six at once every 12 s) kept arriving: {K} attempts ({long_result.get("gave_up_after_s")} s) after it was back, still no tunnel', {'connector': 'quic', 'outage_s': OUTAGE_S})
+if long_result.get('alive') is False:
+    chk.violation('process', 'proxy-died:quic/away-with-request-bursts', f'quic upstream away for {OUTAGE_S} s with a burst of six simultaneous requests every 12 s: the proxy process ended', {'observed': {k: str(v) for k, v in long_result.items()}})
 if long_result.get('served_while_down'):
     chk.violation('recovery.resume', 'tunnel-established-while-upstream-was-away:quic', f'{long_result["served_while_down"]} probes succeeded while the QUIC upstream process was not running', {})
 samples.append({'long_quic_outage': long_result})
